@@ -174,7 +174,7 @@ Inductive opt_result := OptDone (js : list jstep) (used : list nat) | OptUB | Op
 
 Definition nth_js (js : list jstep) (i : nat) : jstep := nth i js js_default.
 
-(* CSS second loop (lines 314-331): no break after a success *)
+(* CSS second loop: stops at the first connection leaving the node *)
 Fixpoint css_second (node : nat) (exitc : option conn) (rng : list conn)
          (js : list jstep) (from to : nat) (used ign : list nat) : list jstep * list nat * list nat :=
   match rng with
@@ -184,9 +184,9 @@ Fixpoint css_second (node : nat) (exitc : option conn) (rng : list conn)
         match exitc with
         | Some ex =>
             if c_cb c
-            then css_second node exitc r
-                            (set_nth (set_nth js from (fun j => set_exit j ex)) to (fun j => set_enter j c))
-                            from to (used ++ [4%nat]) ign
+            then (erase_range (set_nth (set_nth js from (fun j => set_walk (set_exit j ex) 0 0)) to (fun j => set_enter j c))
+                              (S from) to,
+                  used ++ [4%nat], ign)
             else (js, used, ign ++ [node])
         | None => (js, used, ign ++ [node])
         end
@@ -218,9 +218,10 @@ Fixpoint optimize (fuel : nat) (d : data) (js : list jstep) (used ign : list nat
                 | Some c =>
                     if negb (c_cu c) then optimize f d js used (ign ++ [node])
                     else
-                      let js1 := if Nat.eqb (to - from) 1 then erase_range js to (S to)
-                                 else if Nat.ltb 1 (to - from) then erase_range js (S from) to else js in
-                      optimize f d (set_nth js1 from (fun j => set_exit j c)) (used ++ [1%nat]) ign
+                      (* the shortened leg takes over the walk that followed leg `to`; legs from+1..to go *)
+                      let wt := nth_js js to in
+                      let js1 := set_nth js from (fun j => set_exit (set_walk j (js_walk wt) (js_dist wt)) c) in
+                      optimize f d (erase_range js1 (S from) (S to)) (used ++ [1%nat]) ign
                 end
             end
           else if Nat.eqb cs 2 then
@@ -232,7 +233,8 @@ Fixpoint optimize (fuel : nat) (d : data) (js : list jstep) (used ign : list nat
                 | None => OptDone js used
                 | Some c =>
                     if negb (c_cb c) then OptDone js used
-                    else OptDone (set_nth js to (fun j => set_walk (set_enter j c) 0 0)) (used ++ [2%nat])
+                    else OptDone (erase_range (set_nth (set_nth js to (fun j => set_enter j c)) from (fun j => set_walk j 0 0))
+                                              (S from) to) (used ++ [2%nat])
                 end
             end
           else if Nat.eqb cs 3 then
@@ -243,7 +245,7 @@ Fixpoint optimize (fuel : nat) (d : data) (js : list jstep) (used ign : list nat
                 | None => optimize f d js used ign
                 | Some c =>
                     if negb (c_cu c) then optimize f d js used (ign ++ [node])
-                    else optimize f d (set_nth (set_nth js from (fun j => set_exit j c)) to (fun j => set_walk j 0 0))
+                    else optimize f d (erase_range (set_nth js from (fun j => set_walk (set_exit j c) 0 0)) (S from) to)
                                   (used ++ [3%nat]) ign
                 end
             end
